@@ -7,9 +7,9 @@ slice pools (`intermediatePool`, `paramPool`, `paramListPool`).
 Atomicity: one `read r` label is `ReadRune` returning + `escTimeout.Stop()` + `anywhere(r, p)`
 under the mutex; `timerFire` is the whole callback (`emit(C0 0x1B)`, lock, `state = ground`).
 `timerFire` is enabled only while the main goroutine is blocked in the read — the "gap well clear
-of the 10 ms delay" of the property.  The interleavings in which the timer fires *after* the read
-has returned but before `Stop()` (F29) are the separate label `raceFire`; they are outside the
-property ("arrival gaps on either side of the delay") and are exhibited in `Witness/F29.lean`.
+of the 10 ms delay" of the property.  The interleavings in which the timer expires but its callback
+goroutine runs later — after the read has returned, after further transitions, or after the loop has
+ended (F29) — are the labels `timerExpire` / `cbRun`.
 Emission is abstracted to the order of `emit` calls (the consumer is assumed to keep receiving;
 `emit` then never blocks for ever).  Core Lean only.
 -/
@@ -25,39 +25,59 @@ inductive Label
   | enterRead              -- `select` takes the default arm and calls readRune (blocks in ReadRune)
   | read (r : Nat)         -- the read returns a rune; timer stopped; transition under the mutex
   | readEnd                -- the read returns io.EOF or any other error
-  | timerFire              -- the Escape timer fires while the main goroutine is blocked in the read
+  | timerFire              -- the Escape timer fires and its callback runs to completion while the main
+                           -- goroutine is blocked in the read (gap well clear of the delay)
   | closeSig               -- another goroutine calls Close()
   | breakClose             -- `select` takes `<-p.close`
-  | raceFire (r : Nat) (late : Bool)
-      -- F29: the read returned `r` but the timer fired before `Stop()`: the callback emits `C0 0x1B`,
-      -- the main goroutine transitions on `r`, and the callback's `state = ground` lands
-      -- after (`late = true`) or before (`late = false`) that transition
+  | timerExpire            -- the timer expires: its callback goroutine is started (and may be delayed)
+  | cbRun (fresh : Bool)   -- a started callback runs: the one whose ESC is still the last thing the main
+                           -- goroutine did (`fresh`), or one that is out of date (F29: after further
+                           -- reads, or after the loop has ended)
   deriving DecidableEq, Repr, Inhabited
+
+/-- How the timer callback is written (regenerated from the source: `Gen.ParserTable`). -/
+structure Cfg where
+  /-- it also resets `ignoreST` -/
+  clearsST : Bool
+  /-- it runs entirely under the mutex and returns at once when a read has returned, or the loop
+      has ended, since its ESC (generation check) -/
+  guarded : Bool
+  deriving DecidableEq, Repr, Inhabited
+
+/-- The code as it is now (both regenerated flags are checked by `Props.C08.gen_lifecycle_constants`). -/
+def Cfg.fixed : Cfg := ⟨true, true⟩
+/-- The callback as it was before the repair of F29 (for the witnesses). -/
+def Cfg.unguarded : Cfg := ⟨true, false⟩
 
 structure Sys where
   ps : PState := {}
   pc : Pc := .atSelect
-  armed : Bool := false        -- escTimeout is pending
+  armed : Bool := false        -- escTimeout is pending (not expired, not stopped)
   closeReq : Bool := false     -- a value is waiting in p.close
   chanClosed : Bool := false   -- close(p.sequences) has happened
+  fresh : Bool := false        -- a callback has started and the main goroutine has not taken the mutex
+                               -- since the ESC that armed it
+  stale : Nat := 0             -- callbacks that have started and are out of date
   deriving DecidableEq, Repr, Inhabited
 
 def Sys.init : Sys := {}
 
-/-- Leaving the loop: stop the timer, emit EOF, close the channel. -/
+/-- The main goroutine takes the mutex: a started callback becomes out of date. -/
+def Sys.outdate (s : Sys) : Sys := { s with fresh := false, stale := s.stale + (if s.fresh then 1 else 0) }
+
+/-- Leaving the loop: (generation bump,) stop the timer, emit EOF, close the channel. -/
 def finishing (s : Sys) (ps : PState) (out : List Seq) : Sys × List Seq :=
-  ({ s with ps := ps, pc := .done, armed := false, chanClosed := true }, out ++ [.eof])
+  ({ s.outdate with ps := ps, pc := .done, armed := false, chanClosed := true }, out ++ [.eof])
 
 /-- Does the `anywhere` arm for this rune start the Escape timer? -/
 def startsTimer (T : Table) (r : Nat) : Bool := (T.anywhere.row (.rune r)).1.contains .startTimer
 
-/-- What the timer callback does to the parser state (`clearsST` = it also resets `ignoreST`,
-    regenerated from the source as `Gen.ParserTable.timerClearsIgnoreST`). -/
+/-- What the timer callback does to the parser state. -/
 def timerReset (clearsST : Bool) (ps : PState) : PState :=
   { ps with state := .ground, ignoreST := if clearsST then false else ps.ignoreST }
 
 /-- One transition; `none` = the label is not enabled.  Returns the items emitted, in order. -/
-def Sys.step (T : Table) (clearsST : Bool) (s : Sys) : Label → Option (Sys × List Seq)
+def Sys.step (T : Table) (c : Cfg) (s : Sys) : Label → Option (Sys × List Seq)
   | .closeSig => some ({ s with closeReq := true }, [])
   | .enterRead =>
     if s.pc = .atSelect ∧ s.closeReq = false then some ({ s with pc := .inRead }, []) else none
@@ -67,7 +87,7 @@ def Sys.step (T : Table) (clearsST : Bool) (s : Sys) : Label → Option (Sys × 
     if s.pc = .inRead then
       let o := Parser.step T s.ps (.rune r)
       if o.stop then some (finishing s o.st o.out)
-      else some ({ s with ps := o.st, pc := .atSelect, armed := startsTimer T r }, o.out)
+      else some ({ s.outdate with ps := o.st, pc := .atSelect, armed := startsTimer T r }, o.out)
     else none
   | .readEnd =>
     if s.pc = .inRead then
@@ -76,33 +96,39 @@ def Sys.step (T : Table) (clearsST : Bool) (s : Sys) : Label → Option (Sys × 
     else none
   | .timerFire =>
     if s.armed = true ∧ s.pc = .inRead then
-      some ({ s with ps := timerReset clearsST s.ps, armed := false }, [.c0 0x1B])
+      some ({ s with ps := timerReset c.clearsST s.ps, armed := false }, [.c0 0x1B])
     else none
-  | .raceFire r late =>
-    if s.armed = true ∧ s.pc = .inRead then
-      if late then
-        let o := Parser.step T s.ps (.rune r)
-        if o.stop then some (finishing s o.st (.c0 0x1B :: o.out))
-        else some ({ s with ps := timerReset clearsST o.st, pc := .atSelect, armed := startsTimer T r }, .c0 0x1B :: o.out)
+  | .timerExpire =>
+    if s.armed = true then some ({ s with armed := false, fresh := true }, []) else none
+  | .cbRun true =>
+    if s.fresh = true then
+      some ({ s with ps := timerReset c.clearsST s.ps, fresh := false },
+            [if s.chanClosed && !c.guarded then .panic else .c0 0x1B])
+    else none
+  | .cbRun false =>
+    if 0 < s.stale then
+      if c.guarded then some ({ s with stale := s.stale - 1 }, [])
       else
-        let o := Parser.step T (timerReset clearsST s.ps) (.rune r)
-        if o.stop then some (finishing s o.st (.c0 0x1B :: o.out))
-        else some ({ s with ps := o.st, pc := .atSelect, armed := startsTimer T r }, .c0 0x1B :: o.out)
+        -- unguarded: emits whatever has happened meanwhile (a send on the closed channel panics),
+        -- then resets the state
+        some ({ s with ps := timerReset c.clearsST s.ps, stale := s.stale - 1 },
+              [if s.chanClosed then .panic else .c0 0x1B])
     else none
 
 /-- Run a list of labels; `none` if one of them is not enabled. -/
-def Sys.run (T : Table) (clearsST : Bool) : Sys → List Label → Option (Sys × List Seq)
+def Sys.run (T : Table) (c : Cfg) : Sys → List Label → Option (Sys × List Seq)
   | s, [] => some (s, [])
   | s, l :: ls =>
-    match Sys.step T clearsST s l with
+    match Sys.step T c s l with
     | none => none
     | some (s1, o1) =>
-      match Sys.run T clearsST s1 ls with
+      match Sys.run T c s1 ls with
       | none => none
       | some (s2, o2) => some (s2, o1 ++ o2)
 
+/-- Labels of the delayed-callback interleavings (everything else is "gaps well clear of the delay"). -/
 def Label.isRace : Label → Bool
-  | .raceFire _ _ => true
+  | .timerExpire | .cbRun _ => true
   | _ => false
 
 /-! ### Pools: who may write to which backing array
